@@ -17,6 +17,8 @@ Open Scope string_scope.
 Open Scope list_scope.
 
 (* ------------------------------------------------------------------ characters and strings *)
+(* ASCII only: `lower` maps A-Z to a-z and leaves every other character alone (Python's str.lower()
+   agrees with it exactly on ASCII strings; non-ASCII identifiers are outside the model). *)
 Definition is_upper (c : ascii) : bool :=
   let n := nat_of_ascii c in Nat.leb 65 n && Nat.leb n 90.
 Definition is_digit (c : ascii) : bool :=
